@@ -18,6 +18,8 @@ type ResponseWriter[C Client] struct {
 	noResponseValue *uint32
 	response        *pool.Message
 	cc              C
+	// refused: SetResponse has refused a response (RFC 7967) and nothing has replaced it since
+	refused bool
 }
 
 func New[C Client](response *pool.Message, cc C, requestOptions ...message.Option) *ResponseWriter[C] {
@@ -42,10 +44,12 @@ func (r *ResponseWriter[C]) SetResponse(code codes.Code, contentFormat message.M
 	if r.noResponseValue != nil {
 		err := noresponse.IsNoResponseCode(code, *r.noResponseValue)
 		if err != nil {
+			r.refused = true
 			return err
 		}
 	}
 
+	r.refused = false
 	r.response.SetCode(code)
 	r.response.ResetOptionsTo(opts)
 	if d != nil {
@@ -63,8 +67,13 @@ func (r *ResponseWriter[C]) DropIfNotOfInterest() bool {
 		return false
 	}
 	if noresponse.IsNoResponseCode(r.response.Code(), *r.noResponseValue) == nil {
-		return false
+		// What a handler adds through Message() (an ETag, Max-Age, the type) to a response that SetResponse has
+		// refused is the rest of that response: the message has no code, it is not an answer of its own.
+		if !r.refused || r.response.Code() != codes.Empty || r.response.Type() == message.Reset {
+			return false
+		}
 	}
+	r.refused = false
 	r.response.Reset()
 	return true
 }
@@ -73,6 +82,7 @@ func (r *ResponseWriter[C]) DropIfNotOfInterest() bool {
 func (r *ResponseWriter[C]) SetMessage(m *pool.Message) {
 	r.cc.ReleaseMessage(r.response)
 	r.response = m
+	r.refused = false
 }
 
 // Message direct access to the response.
@@ -84,6 +94,7 @@ func (r *ResponseWriter[C]) Message() *pool.Message {
 func (r *ResponseWriter[C]) Swap(m *pool.Message) *pool.Message {
 	tmp := r.response
 	r.response = m
+	r.refused = false
 	return tmp
 }
 
